@@ -139,6 +139,8 @@ func Eval(c *core.Ctx, line string) *core.Case {
 				}
 				return "", ""
 			}}
+	case len(f) == 12 && f[0] == "dhcp.inplace":
+		return evalInplace(c, f) // inplace.go
 	case len(f) == 12 && f[0] == "dhcp.enc":
 		b := core.UnHex(f[1])
 		opcode, _ := strconv.Atoi(f[2])
@@ -425,6 +427,7 @@ func Gen(c *core.Ctx) {
 			optHex(pick(4)), r.Intn(2), showOpts(opts), core.Hex(order))
 		c.Add(*withClass(Eval(c, line), "encode"))
 	}
+	genInplace(c) // inplace.go: EncodeDHCP4 in place with aliased arguments
 }
 
 func withClass(cs *core.Case, class string) *core.Case {
